@@ -124,6 +124,14 @@ def write_evidence(prop, tier, seed, R, ctx, wall, violations, extra=None, expla
         "call_resolution": {k: v for k, v in stats.items() if k != "unknown_samples"},
         "call_resolution_unknown_samples": stats.get("unknown_samples", []),
         "notes": R.notes,
+        "functions_consulted": sorted(ctx.consulted) if ctx else [],
+        "cfg_built_for_functions": len(ctx._cfg) if ctx else 0,
+        "cfg_nodes": sum(len(c.nodes) for c in ctx._cfg.values()) if ctx else 0,
+        "cfg_edges": sum(len(n.succ) for c in ctx._cfg.values() for n in c.nodes) if ctx else 0,
+        "escape_analysis": ({"used": True, "functions_solved": len(ctx._escape.result), "calls_classified": ctx._escape.calls_classified,
+                             "wild_source_sites": len(ctx._escape.wild_sites), "wild_source_samples": ["%s: %s" % w for w in ctx._escape.wild_sites[:8]],
+                             "unclassified_external_calls": ctx._escape.unclassified_ext}
+                            if ctx is not None and ctx._escape is not None else {"used": False}),
         "checker_cmd": "/verif/bin/check %s --tier %s" % (prop, tier),
         "trusted_base": ["CPython 3.12 ast grammar", "receiver-type hint table (verif/engine/callgraph.py)",
                          "external-effects tables (verif/engine/escape.py)"],
